@@ -426,7 +426,10 @@ pub fn eval_cell(cell: &Cell) -> (Vec<Violation>, Expect) {
                     let refused = matches!(rec.res, OpRes::Err(_));
                     if ok {
                         bad(&mut viol, format!("C19/illegal-property-accepted/{ctx:?}/id={id:#04x}"), format!("{ctx:?} with {prop:?} in state {state:?} returned {:?}; MQTT 5 does not allow this property/value there", rec.res));
-                    } else if !exhausted && !is_invalid {
+                    } else if !is_invalid {
+                        // (also with the send window closed or every in-flight slot taken: the
+                        // property quantifies over "any session state", and a request that can
+                        // never succeed must not be answered with a transient resource verdict)
                         bad(&mut viol, format!("C19/refusal-error-kind/{ctx:?}"), format!("{ctx:?} with illegal {prop:?} returned {:?}, documented error is InvalidRequest", rec.res));
                     }
                     if refused {
